@@ -86,7 +86,7 @@ func newWorker(id int, prog *Program, cfg *HarnessCfg) *Worker {
 	w := &Worker{id: id, prog: prog, ctx: ctx, cfg: cfg,
 		globals: map[*ssa.Global]*Object{}, finfos: map[*ssa.Function]*funcInfo{},
 		funcsTouched: map[string]int64{}, intrUsed: map[string]int{}, stubsUsed: map[string]int{},
-		syncTab: map[string]int{}, names: map[string]int{}, reached: map[string]bool{}, regions: map[string]*Term{}}
+		syncTab: map[string]int{}, pdoms: map[*ssa.Function]*pdomInfo{}, mergeFails: map[ssa.Instruction]int{}, feasCache: map[[3]uint64]bool{}, names: map[string]int{}, reached: map[string]bool{}, regions: map[string]*Term{}}
 	w.solver = NewSolver(ctx, cfg.TimeoutMs)
 	if f := os.Getenv("GOSYM_SMTLOG"); f != "" {
 		lf, _ := os.Create(fmt.Sprintf("%s.%d", f, id))
@@ -161,7 +161,7 @@ func (w *Worker) runInit() []string {
 		w.initMode = false
 	}
 	w.dc = nil
-	w.pc = nil
+	w.truncPC(0)
 	w.journal = w.journal[:0] // init state is the baseline
 	w.maxSteps = w.cfg.MaxSteps
 	w.unwind = w.cfg.Unwind
@@ -178,7 +178,7 @@ func firstLine(s string) string {
 // runPath executes one path of harness h under decision prefix.
 func (w *Worker) runPath(h *ssa.Function, prefix []int, sh *shared) {
 	mark := len(w.journal)
-	w.pc = w.pc[:0]
+	w.truncPC(0)
 	w.inputs = w.inputs[:0]
 	w.names = map[string]int{}
 	w.reached = map[string]bool{}
@@ -316,7 +316,7 @@ func (w *Worker) checkViolation(bad *Term, label, kind, detail string) {
 	if !already {
 		w.solver.Push()
 		w.solver.Assert(outside)
-		r := w.solver.Check()
+		r := w.solver.CheckHard()
 		if w.cfg.Tier == "thorough" && r != Sat {
 			w.saveFinalQuery(outside)
 		}
@@ -332,6 +332,11 @@ func (w *Worker) checkViolation(bad *Term, label, kind, detail string) {
 			sh.mu.Unlock()
 		case Unknown:
 			w.solver.Pop()
+			if d := os.Getenv("GOSYM_DUMPHARD"); d != "" {
+				os.MkdirAll(d, 0o755)
+				as := append(append([]*Term{}, w.pc...), outside)
+				os.WriteFile(fmt.Sprintf("%s/hard-%d-%d.smt2", d, w.id, w.solver.Queries), []byte(w.ctx.Script(as)), 0o644)
+			}
 			w.prog.sawUnknown = true
 			sh.addInconcl("UNKNOWN: solver could not decide assertion " + label)
 		default:
@@ -352,7 +357,7 @@ func (w *Worker) checkViolation(bad *Term, label, kind, detail string) {
 		}
 		w.solver.Push()
 		w.solver.Assert(c.And(bad, reg))
-		if w.solver.Check() == Sat {
+		if w.solver.CheckHard() == Sat {
 			v := w.extractViolation(label, kind, detail)
 			v.Known = listedK[i]
 			sh.mu.Lock()
@@ -519,7 +524,7 @@ func (w *Worker) callMerged(caller *frame, fn *ssa.Function, args []Value, env [
 			}
 		}
 		w.rollback(mark)
-		w.pc = w.pc[:pcMark]
+		w.truncPC(pcMark)
 		w.solver.Pop()
 		queue = append(queue, newq...)
 		if !aborted {
@@ -677,6 +682,30 @@ func RunHarness(prog *Program, h *ssa.Function, cfg *HarnessCfg, workers []*Work
 		w.stubsUsed = map[string]int{}
 		w.notes = nil
 	}
+	stopProg := make(chan struct{})
+	if os.Getenv("GOSYM_PROGRESS") != "" {
+		go func() {
+			tk := time.NewTicker(5 * time.Second)
+			defer tk.Stop()
+			for {
+				select {
+				case <-stopProg:
+					return
+				case <-tk.C:
+					sh.mu.Lock()
+					q := 0
+					var merged int
+					for _, w := range workers {
+						q += w.solver.Queries
+						merged += w.RegionsMerged
+					}
+					fmt.Fprintf(os.Stderr, "[progress %s] paths=%d pruned=%d queue=%d inflight=%d queries=%d regionsMerged=%d viol=%d\n", h.Name(), res.Paths, res.Pruned, len(sh.queue), sh.inflight, q, merged, len(res.Violations))
+					sh.mu.Unlock()
+				}
+			}
+		}()
+	}
+	defer close(stopProg)
 	var wg sync.WaitGroup
 	for _, w := range workers {
 		wg.Add(1)
